@@ -5,6 +5,8 @@ import ComposeVerif.Model.C01Reset
 import ComposeVerif.Model.C01Unicity
 import ComposeVerif.Model.C01Pipeline
 import ComposeVerif.Gen.Tables
+import ComposeVerif.Model.Schema
+import ComposeVerif.Gen.Schema
 import ComposeVerif.Model.Unicity
 /-! line-protocol ops for C01: stage walkers, cycle tracker, extends / include / depends_on loops -/
 open Lean
@@ -247,7 +249,8 @@ def unicityLoopOp : Handler := fun args =>
   | .panic site => Json.mkObj [("panic", Json.str site)]
 
 /-! ### the composed stages (`Pipe.loadModel`): documents without extends / include, validation and interpolation off,
-paths not resolved, normalisation off; `SetDefaultValues` on or off; tables as regenerated (`CV.Gen`) -/
+paths not resolved, normalisation off; `SetDefaultValues` on or off; schema + `validation.Validate` on or off (the schema
+verdict is C01Schema's `conforms` on the regenerated schema); tables as regenerated (`CV.Gen`) -/
 
 def pipeOp : Handler := fun args =>
   let docs := match getObj args "docs" with
@@ -256,16 +259,17 @@ def pipeOp : Handler := fun args =>
   match docs.mapM id with
   | .error e => bad e
   | .ok raws =>
-    let o : CV.C01.Pipe.Opts := { skipInterpolation := true, skipValidation := true, skipDefaultValues := getBool args "skip_defaults",
-                                  skipNormalization := true, resolvePaths := false }
+    let o : CV.C01.Pipe.Opts := { skipInterpolation := true, skipValidation := !(getBool args "validate"), skipDefaultValues := getBool args "skip_defaults",
+                                  skipNormalization := !(getBool args "normalize"), resolvePaths := false }
     let P : CV.C01.Pipe.Params :=
       { interp := { table := [], fp := { f64 := fun _ => none, f32 := fun _ => none }, env := fun _ => none },
         omitPats := patsOf args
         defaults := CV.Gen.defaultValues
         paths := { wd := "/".toList, home := none }
-        clean := id
+        clean := CV.C11.pathClean
         env := []
-        schemaOK := fun _ => true
+        projectName := "p"
+        schemaOK := fun v => CV.Schema.conforms CV.Gen.composeSchema v
         extInc := fun v => .ok v
         resolveEnv := id }
     match CV.C01.Pipe.loadModel o P raws with
